@@ -13,10 +13,10 @@ CHECKS = {
          "Full: every partitioner's model is proved to return a partition of the input into k bins (multifit: at most k), complete greedy never returns None without a limit, the searches terminate with explicit fuel; RNP for k <= 5 (after fix F10; k >= 6 is known finding KF1); ILP read-back proved, solver trusted. Strict correspondence of every model with the code on every run; every implementation output also judged by the verified checker checkPartition.", TB),
  "C02": ("proof", "Lean 4 optimality theorems (dp_optimal, cg_optimal for all 16 switch combinations x 5 objectives, ckkF_optimal, snp_optimal', rnpF_optimal, ILP unit_weights_wlog) + correspondence (answers, and the search traces of CKK, SNP, RNP: ckkFT_fst, snpT_fst, rnpFT_fst) + certified evaluation against the verified DP oracle",
          "Full for DP, complete greedy, CKK (both managers), SNP and RNP (k <= 5, after F10 - the defect was found by the proof attempt); ILP: the formulation's optimum is proved to be the true optimum, the MIP solver is trusted and certified per run. Every exact algorithm's output is additionally compared with the verified oracle on every run.", TB),
- "C03": ("proof", "Lean 4 theorems ff/ffd/bf/bfd_isPacking, bc_isPacking + correspondence + verified checker",
-         "Full: feasibility, completeness and non-empty bins proved for the four fit heuristics in every arrival order and for bin completion (list input; zero-valued items dropped). Strict correspondence incl. bin sizes up to 2^40 and dyadic fractions; the helpers of bin completion's search are compared directly.", TB),
- "C04": ("proof", "Lean 4 theorem bc_optimal (bin completion = optBins) + packing_lower_bound, bc_le_bfd, isDom_sound + verified oracle optBins + correspondence incl. direct calls of the search helpers and the trace of the search (binCompletionT_fst)",
-         "Full for list input: the model of bin completion's search is proved to return an optimal packing (Martello-Toth dominance formalised; explicit fuel bound), never more bins than BFD; every implementation answer is compared with the verified minimum for Partition, Sums and BinCount; the sequence of find_bin_completions calls the implementation makes is compared with the model's trace.", TB),
+ "C03": ("proof", "Lean 4 theorems ff/ffd/bf/bfd_isPacking, bc_isPacking, BCNamed.bcNamed_isPacking + correspondence + verified checker",
+         "Full: feasibility, completeness and non-empty bins proved for the four fit heuristics in every arrival order and for bin completion (list input and, since fix F15, named items: BC.binCompletionNamed, BCNamed.bcNamed_isPacking; zero-valued items dropped). Strict correspondence incl. bin sizes up to 2^40 and dyadic fractions; the helpers of bin completion's search are compared directly.", TB),
+ "C04": ("proof", "Lean 4 theorems bc_optimal (bin completion = optBins), BCNamed.bcNamed_optimal (named items) + packing_lower_bound, bc_le_bfd, isDom_sound + verified oracle optBins + correspondence incl. direct calls of the search helpers and the trace of the search (binCompletionT_fst)",
+         "Full for list input and, since fix F15, for named items (the search runs on the values: BCNamed.bcNamed_values, bcNamed_optimal): the model of bin completion's search is proved to return an optimal packing (Martello-Toth dominance formalised; explicit fuel bound), never more bins than BFD; every implementation answer is compared with the verified minimum for Partition, Sums and BinCount; the sequence of find_bin_completions calls the implementation makes is compared with the model's trace.", TB),
  "C05": ("proof", "Lean 4 theorems coverDecreasing/twoThirds/threeQuarters_isCover + correspondence + verified checker",
          "Full: each covering algorithm's model is proved to return a valid cover wasting less than one bin, for all inputs; strict correspondence with the code.", TB),
  "C06": ("proof", "Lean 4 theorems (consistency of every algorithm's result, outputs_from_partition, *_sums_values, snp/rnpF_sums_manager_independent, ckkF_sums_manager_independent; refutation ckk_sums_manager_dependent of the code before fix F11) + model-side output projection + correspondence across all output types",
